@@ -17,7 +17,7 @@ impl Prop for C06 {
         "C06"
     }
     fn rule(&self) -> String {
-        "graphs of all 8 kinds, n in 0..=10 and 21..=34 (parallel path), shapes / shuffled insertion order as C04, unweighted / positive dyadic / tie-rich weights; each graph is evaluated for weighted x wf_improved. Oracle: Floyd-Warshall over the cheapest parallel edge; for u, R = nodes with finite distance TO u (incoming on directed graphs), value (|R|-1)/sum d(v,u), times (|R|-1)/(n-1) with wf_improved, 0 when |R| = 1; tolerance 1e-12 relative (dyadic sums are exact). Exhaustive block: all graphs on <= 3 nodes of the single-edge kinds. Non-trivial = a directed graph where some node's incoming and outgoing distance sums differ, or a disconnected graph evaluated with wf_improved; distinct = distinct serialised case.".into()
+        "graphs of all 8 kinds, n in 0..=10 and 21..=34 (parallel path), shapes / shuffled insertion order as C04, unweighted / positive dyadic / tie-rich weights; each graph is evaluated for weighted x wf_improved, and (weighted single-edge graphs) once more after an existing edge was replaced by a heavier one under KeepLast between two calls. Oracle: Floyd-Warshall over the cheapest parallel edge; for u, R = nodes with finite distance TO u (incoming on directed graphs), value (|R|-1)/sum d(v,u), times (|R|-1)/(n-1) with wf_improved, 0 when |R| = 1; tolerance 1e-12 relative (dyadic sums are exact). Exhaustive block: all graphs on <= 3 nodes of the single-edge kinds. Non-trivial = a directed graph where some node's incoming and outgoing distance sums differ, or a disconnected graph evaluated with wf_improved; distinct = distinct serialised case.".into()
     }
     fn assumptions(&self) -> Vec<String> {
         vec!["positive weights".into()]
@@ -86,6 +86,33 @@ impl Prop for C06 {
                     Ok(Ok(got)) => compare_node_map(&ng, &got, &want, 1e-12, 1e-15, &ctx, &mut out),
                 }
             }
+        }
+        // call - mutate - call: an earlier call must not influence a later one. On a KeepLast graph an
+        // existing edge is replaced by a heavier one between two calls (node and edge counts stay
+        // the same) and the second answer must be the definition's value for the new weights.
+        if !ng.multi && ng.weighted && n >= 2 && n <= 40 && !ng.edges.is_empty() && out.failures.is_empty() {
+            let spec = crate::model::SpecBits { dedupe: 2, ..ng.spec() };
+            let mut g2 = crate::model::G::new(spec.to_specs());
+            for i in &ng.order {
+                g2.add_node(crate::model::mk_node(&ng.names[*i], None));
+            }
+            for (i, j, w) in &ng.edges {
+                let _ = g2.add_edge(crate::model::mk_edge(&ng.names[*i], &ng.names[*j], *w));
+            }
+            out.api_calls += 2;
+            let _ = guard(|| closeness_centrality(&g2, true, false));
+            let k = (case.perm as usize) % ng.edges.len();
+            let mut ng2 = ng.clone();
+            ng2.edges[k].2 += 2.5;
+            let (i, j, w) = ng2.edges[k];
+            let _ = g2.add_edge(crate::model::mk_edge(&ng.names[i], &ng.names[j], w));
+            let want = closeness(&floyd(&weight_matrix(&ng2, true)), false);
+            match guard(|| closeness_centrality(&g2, true, false)) {
+                Err(p) => out.fail(format!("closeness_centrality[after_replacement]/panic/{}", panic_class(&p)), p),
+                Ok(Err(e)) => out.fail(format!("closeness_centrality[after_replacement]/error/{}", kind_of(&e)), e.message.clone()),
+                Ok(Ok(got)) => compare_node_map(&ng2, &got, &want, 1e-12, 1e-15, "closeness_centrality[after_replacement]", &mut out),
+            }
+            out.class("call_mutate_call");
         }
         out.class(format!("kind_{}", ng.spec().label()));
         out.class(format!("wmode_{}", case.wmode));
